@@ -73,12 +73,13 @@ example : (transformScan [91, 97, 93, 58, 32, 47, 117, 10, 10, 91, 98, 93, 58, 3
     [{ start := 0, stop := 8 }, { start := 8, stop := 9 }, { start := 9, stop := 17 }] []).toOption.map (·.1) =
       some [(0, 1), (2, 3)] := by decide +kernel
 
-/-- finding T1 of notes/status_tnopanic.md as the model mirrors it (test on a literal, kernel-evaluated): in `> [a⏎>⇥b]: /u` the
-    label closes on a tab-padded continuation line; FindClosure's `seg.WithStop(seg.Start + i)` counts the two virtual spaces of
-    the padding as bytes, so the reference is registered under the key `a b]:` instead of `a b` (real goldmark: the same) -/
+/-- finding T1 of notes/status_tnopanic.md, REPAIRED in /repo (KNOWN_FINDINGS `fixed:` 9e57c92; regression test on a literal,
+    kernel-evaluated): in `> [a⏎>⇥b]: /u` the label closes on a tab-padded continuation line; FindClosure's
+    `seg.WithStop(seg.Start + i - seg.Padding)` no longer counts the two virtual spaces of the padding as bytes, so the reference
+    is registered under the key `a b` (before the repair: `a b]:`) -/
 example : (transformScan [62, 32, 91, 97, 10, 62, 9, 98, 93, 58, 32, 47, 117, 10]
     [{ start := 2, stop := 5 }, { start := 7, stop := 14, padding := 2 }] []).toOption.map (fun x => x.2.map (·.1)) =
-      some [[97, 32, 98, 93, 58]] := by decide +kernel
+      some [[97, 32, 98]] := by decide +kernel
 
 /-! ### (b) `Transform` is total on the paragraphs it really gets -/
 
